@@ -209,13 +209,16 @@ def register(props):
     props.KNOWN_PREDICATES["c04_default_cycle"] = _cycle_match(1)
     props.PROPS["C04"] = {
         "theory": "Properties/C04.v",
-        "families": ["c04total", "c04struct"],
+        "families": ["c04total", "c04struct"],      # struct-mapped totality: c04struct; the structobj family runs under C01 / C03 (time budget)
         "rule": "c04total: every fixed schema (13 leaf kinds alone and under list / map / 1- and 2-property objects, int/string "
                 "one-ofs inlined or not, recursive / mutually recursive / list- and map-carried / external-namespace references, "
                 "nested scopes, harmless and cyclic single-property chains, harmless and diverging defaults) and seeded generated "
                 "scopes x {the whole pool of ~150 decoder-producible and arbitrary Go values at the root; a pool value injected at "
                 "every position (values and keys) of a valid raw tree (Unserialize, data-mode compatibility) and of the native tree "
-                "Unserialize returned (Validate, Serialize); random compositions} x four operations; observable = outcome class per "
+                "Unserialize returned (Validate, Serialize); random compositions; for every fixed schema with units every edge string "
+                "of its own unit definition (zero counts in every position, totals at the int64 edge, counts beyond int64) alone and as "
+                "list item / map value / object property} x four operations; generated values use the opt-in classes of gen_rich.go "
+                "(edge integers, multi-byte strings, unit strings from the definition, deep / heterogeneous any); observable = outcome class per "
                 "call; c04struct: the same on struct-mapped objects over a fixed family of Go structs. distinct by (schema, call); "
                 "non-trivial = structured schema or structured value",
         "assumptions": ["schemas are built by the public constructors (wf_schema, checked by the model on every case and observed as "
